@@ -488,6 +488,21 @@ pub fn c16() -> Result<u64, String> {
         block_on(block_on(PMTiles::from_async_reader(futures::io::Cursor::new(a.clone()))).map_err(|e| e.to_string())?.to_async_writer(&mut out)).map_err(|e| e.to_string())?;
         if c == Compression::None && out.into_inner() != a { return Err("async rewrite differs from sync bytes (no codec involved)".into()); }
     }
+    // two ids share one content, one of them is re-added with the same bytes, the other one is removed or replaced afterwards:
+    // the history must not show in the bytes
+    for round in 0..24usize { n += 1;
+        let tiles = gen_tiles(&mut r, 1 + round % 5, 3); let c = COMPS[round % 4];
+        let last = *tiles.keys().next_back().unwrap(); let (k1, k2) = (last + 2, last + 9); let x = vec![7u8, round as u8, 1];
+        let mut pm = build(&tiles, c, &Default::default());
+        pm.add_tile(k1, x.clone()).unwrap(); pm.add_tile(k2, x.clone()).unwrap();
+        let (keep, other) = if round % 2 == 0 { (k1, k2) } else { (k2, k1) };
+        pm.add_tile(keep, x.clone()).unwrap();
+        if round % 4 < 2 { pm.remove_tile(other); } else { pm.add_tile(other, vec![9, 9]).unwrap(); }
+        let a = write_at(pm, 0).map_err(|e| e.to_string())?.0;
+        let mut all = tiles.clone(); all.insert(keep, x.clone()); if round % 4 >= 2 { all.insert(other, vec![9, 9]); }
+        let b = write_at(build(&all, c, &Default::default()), 0).map_err(|e| e.to_string())?.0;
+        if a != b { return Err(format!("ids {k1} and {k2} share a content, {keep} is re-added with the same bytes, then {other} is {}: the archive serialises to {} bytes, the same content built directly to {} bytes ({c:?})", if round % 4 < 2 { "removed" } else { "replaced" }, a.len(), b.len())); }
+    }
     // memory vs backing placement: open, add a tile duplicating a backing tile's content, save; compare with the same content built in one go
     for round in 0..40 { n += 1;
         let tiles = gen_tiles(&mut r, 2 + round % 6, 2); let c = COMPS[round % 4];
@@ -1307,6 +1322,17 @@ pub fn c20() -> Result<u64, String> {
             let (o, l) = p.tiles[&2]; let (ws, we) = (h.data_off + o, h.data_off + o + l as u64);
             let lg = log3.borrow(); let lo = lg.iter().map(|x| x.0).min(); let hi = lg.iter().map(|x| x.1).max();
             if again.as_ref() != Some(&tiles[&2]) || lo != Some(ws) || hi != Some(we) { return Err(format!("after a transient read fault inside the lookup of tile 2, the repeated lookup read bytes {lo:?}..{hi:?} (its range is {ws}..{we}) and returned {:?}", again.map(|v| v.len()))); }
+            drop(lg);
+            // the same fault, followed by a lookup of the tile stored directly BEHIND the one whose read failed part-way
+            let log4 = std::rc::Rc::new(std::cell::RefCell::new(Vec::new()));
+            let mut pm4 = PMTiles::from_reader(Flaky { inner: Cursor::new(b.clone()), fail_at_read: reads_so_far + fail_after + 1, reads: 0, touched: log4.clone() }).map_err(|e| e.to_string())?;
+            let _ = pm4.get_tile_by_id(1);
+            if pm4.get_tile_by_id(2).is_ok() { continue; }
+            log4.borrow_mut().clear();
+            let next = pm4.get_tile_by_id(3).map_err(|e| format!("lookup of tile 3 after a transient fault inside the lookup of tile 2 fails: {e}"))?;
+            let (o, l) = p.tiles[&3]; let (ws, we) = (h.data_off + o, h.data_off + o + l as u64);
+            let lg = log4.borrow(); let lo = lg.iter().map(|x| x.0).min(); let hi = lg.iter().map(|x| x.1).max();
+            if next.as_ref() != Some(&tiles[&3]) || lo != Some(ws) || hi != Some(we) { return Err(format!("after a transient read fault inside the lookup of tile 2, the lookup of tile 3 (stored directly behind it) read bytes {lo:?}..{hi:?} (its range is {ws}..{we}) and returned {}", if next.as_ref() == Some(&tiles[&3]) { "the right bytes" } else { "other bytes" })); }
         }
     }
     {
